@@ -517,6 +517,7 @@ pub fn arb_aux(span_us: u32, allow_close: bool) -> impl Strategy<Value = TimedOp
         2 => arb_window().prop_map(AuxOp::SetRecvWindow),
         1 => prop_oneof![Just(10_000_000u64), 1u64..100_000].prop_map(AuxOp::SetSendWindow),
         2 => (any::<bool>(), 0u64..20).prop_map(|(bidi, n)| AuxOp::SetMaxStreams { bidi, n }),
+        1 => Just(AuxOp::LocalAddrChanged),
     ];
     let op = if allow_close {
         prop_oneof![
